@@ -104,7 +104,8 @@ def tla_module(g, base="FitCache", name="FCRun"):
     return "\n".join(lines) + "\n"
 
 
-def cfg_constants(g, dea, depth, max_sources=2, off=(), faults=(), cons=("c1", "c2"), obs_filter=()):
+def cfg_constants(g, dea, depth, max_sources=2, off=(), faults=(), cons=("c1", "c2"), obs_filter=(), reload=False):
+    off = tuple(off) + (() if reload else ("Reload",))
     return {"FitType": _s(g["ftype"]), "GNodes": ("<-", "XNodes"), "GKind": ("<-", "XKind"), "GChildren": ("<-", "XChildren"),
             "GHidden": ("<-", "XHidden"), "GBasic": ("<-", "XBasic"), "GDataNodes": ("<-", "XDataNodes"),
             "GModelErr": ("<-", "XModelErr"), "GProjected": ("<-", "XProjected"), "GParams": ("<-", "XParams"),
